@@ -22,6 +22,26 @@ CLAIMS = {
          "Theorems (Props/Properties_C12.v): with the volume flag set (forced by adfMount when the device is read-only: regenerated slice) no program of the I/O monad - volume level or RDB writers - produces a device write, for every device behaviour; a refused write returns non-zero; the only functions that can reach a device write are the guarded funnel (regenerated call graph). The 'every mutating call reports failure' half is decided by the complete matrix call x {device ro, mount ro, both} x flavour x device kind on the real API (return value, empty write log, identical image), plus random histories on read-only mounts.",
          "No-write: unbounded theorem over the translator tie + funnel. Failure reporting of each API call: exhaustive over the call matrix, not a theorem (the operation models are not part of this property's proof). fopen mode of dump devices not modelled.",
          "Coq proof (any-program invariant over regenerated guards) + exhaustive call matrix on the implementation", "DESIGN.md section 5 C12"),
+ "C01": ("exploration",
+         "Proved (unbounded, over functions regenerated from the C source): the position/size arithmetic all file operations rest on - adfPos2DataBlock's decomposition for every position and both block sizes, data/extension/total block counts without 32-bit wrap, agreement of the two count implementations. Decided per explored history (not a theorem): that open/read/write/seek/truncate/flush/close refine the byte-array model Spec/FsSpec.v - random interleavings over several files and handles, boundary alignment sweeps with fragmentation, all six flavours, DD/HD/hardfile; results compared with the extracted model at every step and the decoded image compared with the model at every quiescent point, with and without remount.",
+         "Headline refinement is exploration with Coq-extracted oracles (reference model + independent decoder); the theorems cover the leaf arithmetic only. One writer per file; no reader beside a writer.",
+         "differential exploration against a Coq reference model and Coq decoder; Coq proof of the regenerated leaf arithmetic", "DESIGN.md section 5 C01"),
+ "C02": ("exploration",
+         "Proved about the reference tree model (Spec/FsSpec.v): a failing call changes nothing; queries are pure. Decided per explored history: the library's create/mkdir/delete/rename/move/comment/protect/lookup/list agree with the model on sequences with names colliding in one hash slot (chains up to 6), case variants, cross-directory moves and every failing call kind; the image is decoded by the extracted decoder every 12 calls and must equal the model's tree, file bytes included (so a failing call that changed anything is seen), on all six flavours.",
+         "Refinement of the C directory code to the model is exploration, not a theorem. Entries with open handles are not deleted/renamed/re-attributed.",
+         "differential exploration against a Coq reference model and Coq decoder", "DESIGN.md section 5 C02"),
+ "C03": ("exploration",
+         "The judge is Spec/Decode.v: a decoder written in Coq from adf_info.txt that shares nothing with the library model, extracted to OCaml. At every quiescent point of generated histories (file, namespace, alignment sweeps; floppy, hardfile, RDB partition; all flavours) the raw image written by the implementation must decode (types, self/parent pointers, checksums, hash-chain placement by the AmigaDOS hash proved equal to the library's in C15, highSeq/extension counts vs size, OFS data headers, bitmap flag and pages, cache blocks) and the decoded tree, metadata and bytes must equal the reference model.",
+         "Per explored history. The decoder's reading of the format text is recorded in DESIGN.md appendix A.",
+         "exploration judged by an independent decoder written in Coq", "DESIGN.md section 5 C03"),
+ "C04": ("proof",
+         "Theorems (Props/Properties_C04.v): the regenerated index and mask expressions of adfIsBlockFree/adfSetBlockFree/adfSetBlockUsed implement the bitmap layout of the format text (test, set, clear exactly one bit; indices in bounds for exactly the blocks of the volume; distinct blocks, distinct bits); the circular scan of adfGetFreeBlocks returns `want` distinct, previously free, in-range blocks (never boot blocks), marks exactly those, and fails only when fewer are free. The scan is a hand mirror tied to the C function by correspondence on random (sparse and dense) bitmaps incl. wrap-around and exhaustion. 'Each reachable block reached once and marked allocated on disk at every quiescent point' is judged per explored history by the extracted decoder, incl. multi-page volumes, partitions with non-zero first block, dumps with and without remount.",
+         "Allocator theorems: unbounded over model; bit arithmetic: translator tie; scan: correspondence tie. History half: exploration.",
+         "Coq proof (bit algebra over regenerated expressions, allocator scan) + correspondence + decoder-judged exploration", "DESIGN.md section 5 C04"),
+ "C05": ("exploration",
+         "Proved: adfCountFreeBlocks (mirror over the regenerated bit test) counts exactly the free bits of blocks 2..last; allocating lowers it by exactly one; the two block-count computations used at creation and at release agree for every size. Decided per explored history: allocated = reachable + reserved (decoder) and library free count = bitmap count at every dump; create/truncate/delete cycles over the size classes 0, <72, =72, >72, >144 data blocks restore the initial free count; with and without directory cache; floppies, hardfiles, partitions.",
+         "Conservation over histories is exploration judged by the Coq decoder; counting theorems are unbounded.",
+         "decoder-judged exploration + Coq proof of the counting arithmetic", "DESIGN.md section 5 C05"),
 }
 
 def main():
